@@ -233,10 +233,10 @@ pub fn eval_tag(c: &TagCase, obs: &mut Obs) -> Result<(), String> {
 
 fn tag_strategy(_: &Ctx) -> BoxedStrategy<TagCase> {
     let open = known::open(D16_SIG).is_some();
-    (gen::tag_spec(3), 0u32..=21, any::<bool>())
+    (gen::tag_spec(3), 0u32..=21, 0u8..4)
         .prop_map(move |(mut s, kind, own)| {
             // mostly view the tag as what it is; sometimes as another kind
-            if own || s.kind > 21 {
+            if own != 0 || s.kind > 21 {
                 s.kind = kind;
             }
             let mut img = gen::build_tag(&s);
